@@ -1,8 +1,10 @@
 package main
 
 import (
+	"fmt"
 	"go/token"
 	"go/types"
+	"os"
 	"sort"
 	"strings"
 
@@ -227,7 +229,75 @@ func (d *depEngine) callDeps(call *ssa.Call, out map[string]bool, depth int) {
 		union(out, e.deps(a, depth+1))
 	}
 	_ = name
+	// an unexported helper of the same package (a block of the method moved into a method of its own): the result also
+	// depends on whatever the helper's returned values depend on, in the caller's vocabulary
+	if cal := call.Call.StaticCallee(); !call.Call.IsInvoke() && isLocalHelper(d.fn, cal) && depHelperDepth < 2 {
+		depHelperDepth++
+		sum, ok := depHelperMemo[cal]
+		if !ok {
+			sum = map[string]bool{}
+			hd := newDep(cal, nil)
+			for _, ret := range returnsOf(cal) {
+				for _, res := range ret.Results {
+					for _, l := range hd.labels(res) {
+						sum[l] = true
+					}
+				}
+			}
+			depHelperMemo[cal] = sum
+			if os.Getenv("MPS_DEPDBG") != "" {
+				fmt.Fprintf(os.Stderr, "DEPSUM %s: %v\n", cal, sum)
+			}
+		}
+		depHelperDepth--
+		type sub struct {
+			from string
+			to   []string
+		}
+		var subs []sub
+		for i := range cal.Params {
+			pl := paramLabel(cal, i)
+			if pl == "" || i >= len(call.Call.Args) {
+				continue
+			}
+			if pl == "recv" && d.fn.Signature.Recv() != nil && len(d.fn.Params) > 0 && call.Call.Args[i] == ssa.Value(d.fn.Params[0]) {
+				continue // the same object: its field labels carry over unchanged
+			}
+			var to []string
+			for l := range e.deps(call.Call.Args[i], depth+1) {
+				to = append(to, l)
+			}
+			sort.Strings(to)
+			subs = append(subs, sub{pl, to})
+		}
+		for l := range sum {
+			cur := []string{l}
+			for _, sb := range subs {
+				var next []string
+				for _, c := range cur {
+					if !mentionsToken(c, sb.from) || len(sb.to) == 0 {
+						next = append(next, c)
+						continue
+					}
+					for _, t := range sb.to {
+						if c == sb.from || len(sb.to) > 1 && strings.HasPrefix(c, sb.from+".") {
+							next = append(next, t)
+						} else {
+							next = append(next, replaceToken(c, sb.from, t))
+						}
+					}
+				}
+				cur = next
+			}
+			for _, c := range cur {
+				out[c] = true
+			}
+		}
+	}
 }
+
+var depHelperDepth int
+var depHelperMemo = map[*ssa.Function]map[string]bool{}
 
 // effects: what flows into object obj through stores and calls that can precede d.at.
 func (d *depEngine) effects(obj ssa.Value, out map[string]bool, depth int) {
